@@ -156,8 +156,9 @@ def isDottedQuadShape (s : List Nat) : Bool :=
   let parts := splitOn 46 s
   decide (parts.length = 4) && parts.all fun p => !p.isEmpty && p.all isDigit
 
-/-- `$` of a Python regex: end of string, or just before a final newline -/
-def dropFinalNewline (s : List Nat) : List Nat := if endsWith s [10] then s.dropLast else s
+/-- the end anchor of `_v4_ending` / `_colon_colon_end`: `\Z`, the very end of the string (`fix:` commit 0148a06; it was
+`$`, which also matches just before a final newline, so `::1.2.3.4\n` was accepted) -/
+def dropFinalNewline (s : List Nat) : List Nat := s
 
 def hex2 (x : Nat) : List Nat := [hexDigitLower (x / 16 % 16), hexDigitLower (x % 16)]
 
